@@ -140,4 +140,26 @@ def extDegree (e : Int) (kind : Nat) (arg : Int) : Int :=
 def extRandomD (p e : Int) (kind : Nat) (arg : Int) (fuel : Nat) (old : List Int) (g : Int) : Option (List Int × Int) :=
   polyRandomD 32 true p (extDegree e kind arg) fuel old g
 
+/-! ## GIV_randIter as an object: copy construction and copy assignment (givranditer.h) -/
+
+/-- the data members that matter: `_size` (a `const Residu_t`) and `_givrand` -/
+structure GivIt where
+  size : Int
+  g : Int
+deriving DecidableEq, Repr
+
+/-- copy constructor: `_ring(R._ring), _size(R._size), _givrand(R._givrand)` -/
+def GivIt.copy (c : GivIt) : GivIt := ⟨c.size, c.g⟩
+
+/-- `operator=` of the pinned tree: `_givrand = R._givrand; const_cast<Ring&>(_ring) = R._ring;` — the const member `_size` of
+    the assigned-to iterator stays as it was -/
+def GivIt.assign (d c : GivIt) : GivIt := ⟨d.size, c.g⟩
+
+/-- `operator=` as repaired by fixes/C20_5.patch: `_size = R._size` as well -/
+def GivIt.assignFixed (_d c : GivIt) : GivIt := ⟨c.size, c.g⟩
+
+/-- `operator()(elt)` on `GFqDom`: `ring().random(_givrand, elt, _size)` -/
+def GivIt.draw (bits : Nat) (q : Int) (it : GivIt) (old : Int) : Int × GivIt :=
+  ((gfqRandomD bits q it.size old it.g).1, ⟨it.size, (gfqRandomD bits q it.size old it.g).2⟩)
+
 end Givaro.Model.RandomRings
